@@ -7,6 +7,7 @@ import (
 	"bytes"
 	"encoding/binary"
 	"fmt"
+	"os"
 	"runtime/debug"
 	"sort"
 	"strings"
@@ -200,6 +201,7 @@ type World struct {
 
 	Commits, Aborts, Reopens, Writes, Allocs, Frees, OOMs int
 	failed                                                bool
+	lastErr                                               error // error behind the most recent operation-level violation
 	LastTxid                                              uint64
 	OpenOpts                                              func(o *txfile.Options) // tweak options on (re)open
 }
@@ -222,6 +224,9 @@ func (w *World) tracef(format string, args ...interface{}) {
 	w.traceHash = w.traceHash*1099511628211 ^ core.Hash64([]byte(s))
 	if w.TraceOn || len(w.Trace) < 400 {
 		w.Trace = append(w.Trace, s)
+	}
+	if w.TraceOn {
+		fmt.Fprintln(os.Stderr, "TRACE", s)
 	}
 }
 
@@ -485,6 +490,7 @@ func (w *World) getTxPage(id txfile.PageID) *txPage {
 		return nil
 	}
 	if err != nil {
+		w.lastErr = err
 		w.violate("page-access", "page-access:"+kindOf(err), "Tx.Page(%d) of live page failed: %v", id, err)
 		return nil
 	}
@@ -519,6 +525,7 @@ func (w *World) Alloc(n int, fill int) bool {
 			w.tracef("alloc(%d) -> OOM", n)
 			return true
 		}
+		w.lastErr = err
 		w.violate("alloc-error", "alloc-error:"+kindOf(err), "AllocN(%d) failed unexpectedly: %v", n, err)
 		return false
 	}
@@ -691,6 +698,7 @@ func (w *World) Write(id txfile.PageID, mode int, length int) bool {
 			w.tracef("write(%d,mode=%d) -> OOM", id, mode)
 			return true
 		}
+		w.lastErr = err
 		w.violate("write-error", "write-error:"+kindOf(err), "write mode %d to page %d failed: %v", mode, id, err)
 		return false
 	}
@@ -753,6 +761,7 @@ func (w *World) Read(id txfile.PageID) bool {
 		return true
 	}
 	if err != nil {
+		w.lastErr = err
 		w.violate("read-error", "read-error:"+kindOf(err), "Bytes() of page %d failed: %v", id, err)
 		return false
 	}
@@ -777,6 +786,7 @@ func (w *World) Free(id txfile.PageID) bool {
 		return false
 	}
 	if err != nil {
+		w.lastErr = err
 		w.violate("free-error", "free-error:"+kindOf(err), "Free(%d) failed: %v", id, err)
 		return false
 	}
@@ -799,6 +809,7 @@ func (w *World) FlushPage(id txfile.PageID) bool {
 			w.tracef("flushpage(%d) -> OOM", id)
 			return true
 		}
+		w.lastErr = err
 		w.violate("flush-error", "flush-error:"+kindOf(err), "Flush(%d) failed: %v", id, err)
 		return false
 	}
@@ -821,6 +832,7 @@ func (w *World) FlushTx() bool {
 			w.resyncFlushed()
 			return true
 		}
+		w.lastErr = err
 		w.violate("flush-error", "flush-error:"+kindOf(err), "Tx.Flush failed: %v", err)
 		return false
 	}
@@ -853,6 +865,7 @@ func (w *World) Checkpoint() bool {
 		return false
 	}
 	if err != nil {
+		w.lastErr = err
 		w.violate("checkpoint-error", "checkpoint-error:"+kindOf(err), "CheckpointWAL failed: %v", err)
 		return false
 	}
